@@ -48,7 +48,7 @@ CHECKS = {
     technique='symbolic execution on a small symbolic grid + z3 nonlinear real arithmetic',
     design='2/C15'),
  'C19': dict(
-    text='Bounded SMT validity checking: radiogenic, cooling, viscosity and melt-law functions executed symbolically; exp and x**b are atoms with instantiated monotonicity / functional-equation axioms; additivity, linearity, half-life, sign, monotonicity (two symbolic copies, inside and across guard regions), floors and Henning window values decided by z3.',
+    text='Bounded SMT validity checking: radiogenic, cooling, viscosity and melt-law functions executed symbolically; exp and x**b are atoms with instantiated monotonicity / functional-equation axioms; additivity, linearity, half-life, sign, monotonicity (two symbolic copies, inside and across guard regions), floors and Henning window values decided by z3. Round-3 addition: Radiogenics.__init__/reinit of the current source run on a stub self with a symbolic isotope table; heating through the configuration keys of the model\'s !TPY_args const line equals the model on the CURRENT table after init, a second reinit and a replaced table (real-object replay).',
     note='Trusted: z3, symx executor, the atom axioms (listed in evidence; a model that does not replay on the real code is reported as a harness error, never as a violation).',
     technique='symbolic execution with transcendental atoms + two-copy monotonicity queries in z3 (nonlinear real arithmetic)',
     design='2/C19'),
@@ -98,7 +98,7 @@ CHECKS = {
     technique='symbolic execution of the real function over a symbolic file system with crash counters as z3 integers (path exploration + z3), replay on the real code',
     design='2/C18'),
  'C16': dict(
-    text='Bounded SMT validity checking of the construction bookkeeping: find_geometry_from_config (all 32x4 presence patterns of the configuration keys, symbolic values), PhysicalObjSpherical.set_geometry (symbolic geometry, np.linspace exact, <=4 slices) and 3-layer stacks: contiguity, strictly increasing slices, telescoping volume sums, enclosed-mass monotonicity, surface gravity, world mass rule; scale_from_world / build_from_world executed on real dict graphs with symbolic leaves (lengths scaled, volume fractions preserved, inputs not mutated); the variant-naming block executed on a z3 string with an unwinding assertion on its loop for chains of derivations. Round-2 additions: mixed derivation chains (default names, explicit symbolic names, scale_from_world) with the invariant that every derived configuration records the name it was built with; LayeredWorld.reinit leaves the configuration untouched.',
+    text='Bounded SMT validity checking of the construction bookkeeping: find_geometry_from_config (all 32x4 presence patterns of the configuration keys, symbolic values), PhysicalObjSpherical.set_geometry (symbolic geometry, np.linspace exact, <=4 slices) and 3-layer stacks: contiguity, strictly increasing slices, telescoping volume sums, enclosed-mass monotonicity, surface gravity, world mass rule; scale_from_world / build_from_world executed on real dict graphs with symbolic leaves (lengths scaled, volume fractions preserved, inputs not mutated); the variant-naming block executed on a z3 string with an unwinding assertion on its loop for chains of derivations. Round-2 additions: mixed derivation chains (default names, explicit symbolic names, scale_from_world) with the invariant that every derived configuration records the name it was built with; LayeredWorld.reinit leaves the configuration untouched. Round-3 addition: the configuration-untouched obligation executes every statement of LayeredWorld.reinit after the layer loop (late set_geometry, tides set-up, clean-up block).',
     note='Trusted: z3 (NRA and strings), symx executor, method extraction with a duck-typed object. The full class machinery of world construction and the shipped configurations are reached only through the replay runner (real build_world/scale_from_world/build_from_world).',
     technique='symbolic execution of extracted methods + z3 nonlinear real arithmetic and string theory; unwinding assertion for the naming loop; replay on the real API',
     design='2/C16'),
